@@ -84,32 +84,39 @@ def run(ctx):
             sig = {'modes_contiguous_from_1': modes == list(range(1, len(modes) + 1)), 'normalize': normalize, 'supplied_coordinates': supplied,
                    'nmodes': len(modes)}
             detail = {'mask': name, 'modes': modes, 'normalize': normalize, 'supplied_coordinates': supplied}
-            c = nr.uniform(-1, 1, size=len(modes))
+            # OPDs come in metres (nanometre or picometre magnitudes as well as unit ones) and in any memory layout:
+            # fitting and removing are linear, so everything scales with `unit`
+            unit = rng.choice((1.0, 1.0, 1e-7, 1e-9, 1e-12, 1e3))
+            lay = rng.choice(('C', 'C', 'F', 'T'))
+            L = (lambda x: x) if lay == 'C' else (np.asfortranarray if lay == 'F' else (lambda x: np.ascontiguousarray(x.T).T))
+            sig.update(unit='unit' if unit == 1.0 else ('small' if unit < 1 else 'large'), layout=lay)
+            tol = tol * unit
+            c = nr.uniform(-1, 1, size=len(modes)) * unit
             # program 1: compose on the modes M, then fit
             coeffs = np.zeros(max(modes))
             for k, j in enumerate(modes):
                 coeffs[j - 1] = c[k]
             opd = lentil.zernike_compose(mask, coeffs, normalize=normalize, **kw)
-            fit = lentil.zernike_fit(opd, mask, modes, normalize=normalize, **kw)
+            fit = lentil.zernike_fit(L(opd), mask, modes, normalize=normalize, **kw)
             if not np.allclose(fit, c, rtol=0, atol=tol):
                 ctx.violation(dict(sig, kind='fit-of-compose'), dict(detail, coefficients=c, fitted=fit), case=None)
             if normalize:
                 # programs 2-4 (zernike_remove has no normalisation switch; it removes a least-squares component either way)
-                opd_r = nr.normal(size=mask.shape) * (mask != 0)
+                opd_r = L(nr.normal(size=mask.shape) * (mask != 0) * unit)
                 try:
                     res1 = lentil.zernike_remove(opd_r, mask, modes, **kw)
                 except Exception as ex:
                     ctx.violation(dict(sig, kind='remove-' + type(ex).__name__), dict(detail, error=repr(ex)[:200]), case=None)
                     continue
                 f1 = lentil.zernike_fit(res1 * (mask != 0), mask, modes, **kw)
-                scale = 1 + np.abs(opd_r).max()
+                scale = 1 + np.abs(opd_r).max() / unit
                 if not np.allclose(f1, 0, atol=tol * scale):
                     ctx.violation(dict(sig, kind='residual-still-contains-removed-modes'), dict(detail, fitted_after_remove=f1), case=None)
                 res2 = lentil.zernike_remove(res1, mask, modes, **kw)
                 if not np.allclose((res2 - res1) * (mask != 0), 0, atol=tol * scale):
                     ctx.violation(dict(sig, kind='remove-not-idempotent'), dict(detail, max_change=float(np.abs((res2 - res1) * (mask != 0)).max())), case=None)
-                res3 = lentil.zernike_remove(opd, mask, modes, **kw)
-                if not np.allclose(res3 * (mask != 0), 0, atol=tol * (1 + np.abs(opd).max())):
+                res3 = lentil.zernike_remove(L(opd), mask, modes, **kw)
+                if not np.allclose(res3 * (mask != 0), 0, atol=tol * (1 + np.abs(opd).max() / unit)):
                     ctx.violation(dict(sig, kind='pure-modes-not-removed'), dict(detail, max_residual=float(np.abs(res3 * (mask != 0)).max())), case=None)
     # many modes on a small off-centre segment with global coordinates: independent but badly conditioned (cond ~ 1e7..1e9)
     big = lentil.hexagon((128, 128), 9, shift=(30, -22), antialias=False)
